@@ -2,6 +2,7 @@
 From Coq Require Import List ZArith NArith Bool.
 Import ListNotations.
 From GS Require Import Num EventLoop Kernel Sim.
+From GS Require Import NumZ ExampleKit.
 From GS.Proofs Require Import Aux KernelP KernelP2 AssertP.
 
 Section C18.
@@ -85,6 +86,24 @@ Proof.
   - destruct b; [destruct Hr as (_ & Hn & _); congruence|reflexivity].
   - apply k_steps_after_completion. right. exact Ha.
 Qed.
+
+(** Non-vacuity: an always-assertion interrupts the run right after the first event that leaves the flag
+    false (the timer at 2; the one at 3 never runs); an eventually-assertion whose predicate never held fails
+    at the end. *)
+Definition ex18 (n : nat) (ps : unit) (now : Z) (c : cb Z) : unit * list (action Z) :=
+  match c with
+  | CbInit => (tt, [ASetFlag true; ASetTimer 0 1%Z; ASetTimer 0 2%Z; ASetTimer 0 3%Z])
+  | CbTimer _ => (tt, [ASetFlag (Z.ltb now 2)])
+  | _ => (tt, [])
+  end.
+Definition ex18b (n : nat) (ps : unit) (now : Z) (c : cb Z) : unit * list (action Z) := (tt, []).
+Example C18_example :
+  fst (fst (fst (runx (cfgx [HTimer; HAssert] 1 [(0, 0, 0)%Z] 10%Z 0%Z 0%Z 1%Z 1%Z [AAlwaysProto 0] []) ex18 None None 20))) =
+  [TCb 0 0%Z CbInit; TAct 0 (ASetFlag true) Ok; TAct 0 (ASetTimer 0 1%Z) Ok; TAct 0 (ASetTimer 0 2%Z) Ok; TAct 0 (ASetTimer 0 3%Z) Ok;
+   TCb 0 1%Z (CbTimer 0); TAct 0 (ASetFlag true) Ok; TCb 0 2%Z (CbTimer 0); TAct 0 (ASetFlag false) Ok; TAssertFail 0] /\
+  fst (fst (fst (runx (cfgx [HTimer; HAssert] 1 [(0, 0, 0)%Z] 10%Z 0%Z 0%Z 1%Z 1%Z [AEventuallySim QAll] []) ex18b None None 20))) =
+  [TCb 0 0%Z CbInit; TCb 0 0%Z CbFinish; TAssertFail 0].
+Proof. vm_compute. split; reflexivity. Qed.
 
 Print Assumptions C18_always_proto.
 Print Assumptions C18_nodes_of_type.
